@@ -10,14 +10,17 @@ package store
 // acknowledged history (the property statement).
 
 import (
+	"bytes"
 	"fmt"
 	"strings"
 	"testing"
 	"time"
 )
 
-func c22History(t *testing.T, rep *vfReport, r *vfRng, nOps int, join bool) (ops, impl []string) {
-	e := ssmNewEnv(t, rep, r, "C22", false)
+func c22History(t *testing.T, rep *vfReport, r *vfRng, nOps int, join, voter bool) (ops, impl []string) {
+	var e *ssmEnv
+	defer ssmGuard(rep, &e, &ops, &impl)
+	e = ssmNewEnv(t, rep, r, "C22", false)
 	defer e.cleanup()
 	loads, bads, restarts := 0, 0, 0
 	for i := 0; i < nOps && !e.broken; i++ {
@@ -70,7 +73,7 @@ func c22History(t *testing.T, rep *vfReport, r *vfRng, nOps int, join bool) (ops
 		}
 	}
 	if join && !e.broken {
-		c22Join(t, rep, e)
+		c22Join(t, rep, e, voter)
 	}
 	rep.Case(strings.Join(e.hist, " "), loads > 0 && (restarts > 0 || bads > 0))
 	rep.Sample(map[string]interface{}{"history": strings.Join(e.hist, " "), "final": e.want.String()})
@@ -79,7 +82,7 @@ func c22History(t *testing.T, rep *vfReport, r *vfRng, nOps int, join bool) (ops
 
 // c22Join adds a second node to the cluster; it must end up with the same table,
 // whether it is brought up to date from the log or by a snapshot transfer.
-func c22Join(t *testing.T, rep *vfReport, e *ssmEnv) {
+func c22Join(t *testing.T, rep *vfReport, e *ssmEnv, voter bool) {
 	s1, ln1 := mustNewStore(t)
 	defer ln1.Close()
 	s1.HeartbeatTimeout, s1.ElectionTimeout, s1.LeaderLeaseTimeout = 300*time.Millisecond, 300*time.Millisecond, 300*time.Millisecond
@@ -87,22 +90,29 @@ func c22Join(t *testing.T, rep *vfReport, e *ssmEnv) {
 		t.Fatalf("open joiner: %v", err)
 	}
 	defer s1.Close(true)
-	if err := e.s.Join(joinRequest(s1.ID(), s1.Addr(), true)); err != nil {
-		t.Fatalf("join: %v", err)
+	if err := ssmRetry(e.s, func() error { return e.s.Join(joinRequest(s1.ID(), s1.Addr(), voter)) }); err != nil {
+		e.opFailed("join", err)
 	}
-	if _, err := s1.WaitForLeader(15 * time.Second); err != nil {
-		t.Fatalf("joiner leader: %v", err)
+	kind := "voter"
+	if !voter {
+		kind = "read-only-node"
+	}
+	if _, err := s1.WaitForLeader(60 * time.Second); err != nil {
+		ssmAbandonNow(fmt.Sprintf("joiner never saw a leader: %v", err))
 	}
 	want := e.want.String()
 	got := ""
-	for i := 0; i < 200; i++ {
+	for i := 0; i < 1200; i++ {
 		if got = ssmQueryDump(s1); got == want {
 			break
 		}
 		time.Sleep(50 * time.Millisecond)
 	}
-	e.hist = append(e.hist, "join")
-	rep.Count("op-join")
+	if got != want && s1.AppliedIndex() < e.s.AppliedIndex() {
+		ssmAbandonNow("joiner did not reach the leader's applied index within 60 s")
+	}
+	e.hist = append(e.hist, "join("+kind+")")
+	rep.Count("op-join-" + kind)
 	e.emit("join", got) // the model's `joinFrom`: newest snapshot + log suffix, nothing local
 	if got != want {
 		rep.Fail("joining-node-has-different-database", fmt.Sprintf("history %v: joiner has %q, leader's acknowledged state is %q", e.hist, got, want),
@@ -117,11 +127,14 @@ func c22Join(t *testing.T, rep *vfReport, e *ssmEnv) {
 	follow := func(what string) {
 		want := e.want.String()
 		got := ""
-		for i := 0; i < 200; i++ {
+		for i := 0; i < 1200; i++ {
 			if got = ssmQueryDump(s1); got == want && s1.AppliedIndex() >= e.s.AppliedIndex() {
 				break
 			}
 			time.Sleep(50 * time.Millisecond)
+		}
+		if got != want && s1.AppliedIndex() < e.s.AppliedIndex() {
+			ssmAbandonNow("follower did not reach the leader's applied index within 60 s after " + what)
 		}
 		rep.Count("follower-checked-after-" + what)
 		e.emit("join", got)
@@ -129,6 +142,37 @@ func c22Join(t *testing.T, rep *vfReport, e *ssmEnv) {
 			rep.Fail("follower-has-different-database-after-"+what, fmt.Sprintf("history %v: follower has %q, leader's acknowledged state is %q", e.hist, got, want),
 				map[string]interface{}{"history": e.hist, "got": got, "want": want})
 			e.broken = true
+		}
+	}
+	// A boot bypasses the log and reaches other nodes only by snapshot transfer, which a
+	// caught-up member never gets: with ANY other server attached (voter or read-only) the
+	// boot must be refused and change nothing, on either node.
+	{
+		rows := e.genRows()
+		b := ssmMakeDB(e.t, e.dir, rows, e.r.Bool())
+		e.emit("setconfig "+ssmRaftConfigList(e.s), "ok")
+		err := ssmRetry(e.s, func() error { _, err := e.s.ReadFrom(bytes.NewReader(b)); return err }) // "not leader" is checked first and is not the refusal under test
+		e.hist = append(e.hist, fmt.Sprintf("boot-attempt(%s)", rows))
+		rep.Count("boot-attempt-with-" + kind + "-attached")
+		if err == nil {
+			e.emit("boot "+rows.String(), "ok")
+			got := ssmQueryDump(s1)
+			rep.Fail("boot-accepted-with-"+kind+"-attached", fmt.Sprintf("history %v: ReadFrom succeeded on a cluster of %s; leader now has %q, the attached node %q",
+				e.hist, ssmRaftConfigList(e.s), ssmQueryDump(e.s), got), map[string]interface{}{"history": e.hist})
+			e.broken = true
+			return
+		}
+		if err != ErrNotSingleNode && ssmLoadRelated(err) {
+			ssmAbandonNow(fmt.Sprintf("boot attempt: %v", err))
+		}
+		if err != ErrNotSingleNode {
+			rep.Fail("boot-attempt-unexpected-error", fmt.Sprintf("history %v: %v", e.hist, err), map[string]interface{}{"history": e.hist})
+		}
+		e.emit("boot "+rows.String(), "refused")
+		e.dump("table-changed-by-refused-boot")
+		follow("refused-boot")
+		if e.broken {
+			return
 		}
 	}
 	e.load(e.genRows(), e.r.Bool())
@@ -149,15 +193,16 @@ func c22Join(t *testing.T, rep *vfReport, e *ssmEnv) {
 }
 
 func TestVerifC22(t *testing.T) {
-	rep := vfNewReport("C22", "generated histories on real single-node stores over {write requests (plain/transaction; put, insert, delete, add, failing statement), load of a generated database file (WAL- or DELETE-mode), SQL-text load, load of invalid data carrying the SQLite magic (garbage, truncated file, corrupt header), boot, snapshot with/without log truncation, restart (fast path or forced rebuild)}, then (every second history) a second node joins and must hold the same table (also compared with the model's joinFrom), and a load, an invalid load and a write are then applied by both nodes and compared; the client-visible outcome of every load (ok / rejected) is compared with the model; the table is checked after every step; non-trivial = at least one load/boot and at least one restart or invalid load; distinct by history text")
+	rep := vfNewReport("C22", "generated histories on real single-node stores over {write requests (plain/transaction; put, insert, delete, add, failing statement), load of a generated database file (WAL- or DELETE-mode), SQL-text load, load of invalid data carrying the SQLite magic (garbage, truncated file, corrupt header), boot, snapshot with/without log truncation, restart (fast path or forced rebuild)}, then (every second history) a second node joins as a voter or as a read-only node and must hold the same table; a boot attempted now must be refused and change nothing on either node (model: boot is enabled only on a configuration of one server) (also compared with the model's joinFrom), and a load, an invalid load and a write are then applied by both nodes and compared; the client-visible outcome of every load (ok / rejected) is compared with the model; the table is checked after every step; non-trivial = at least one load/boot and at least one restart or invalid load; distinct by history text")
 	defer rep.Write()
 	r := ssmRng(22)
 	n := vfScale(5, 60)
 	var allOps, allImpl [][]string
 	for h := 0; h < n; h++ {
-		ops, impl := c22History(t, rep, r, vfScale(10, 30), h%2 == 0)
+		ops, impl := c22History(t, rep, r, vfScale(10, 30), h%2 == 0, h%4 == 0)
 		allOps = append(allOps, ops)
 		allImpl = append(allImpl, impl)
 	}
+	ssmFloor(rep)
 	rep.vfCompareSegments("storesm", allOps, allImpl)
 }
